@@ -52,6 +52,7 @@ type interpreter struct {
 	selectFn   value            // harness-supplied Select oracle
 	goMode     int
 	opaqueN    int
+	noSummary  bool
 	classCache map[*ssa.Function]fnClass
 }
 
